@@ -176,7 +176,13 @@ fn get_exit_code(exit_code: i32, test_code: i32) -> (res: i32)
     match exit_code {
         SUCCESS_STATUS_CODE => test_code,
         TEST_ERROR_STATUS_CODE => exit_code,
-        TEST_FAILURE_STATUS_CODE => TEST_FAILURE_STATUS_CODE,
+        TEST_FAILURE_STATUS_CODE => {
+            if test_code == TEST_ERROR_STATUS_CODE {
+                TEST_ERROR_STATUS_CODE
+            } else {
+                TEST_FAILURE_STATUS_CODE
+            }
+        }
         _ => unreachable!(),
     }
 }
